@@ -1479,42 +1479,32 @@ PIP_Decision_Node::solve(const PIP_Problem& pip,
     return nullptr;
   }
 
-  if (has_false_child && false_child == nullptr) {
-    // False child has become unfeasible: merge this node's artificials with
-    // the true child, while removing the local parameter constraints, which
-    // are no longer discriminative.
-#ifdef NOISY_PIP_TREE_STRUCTURE
-    indent_and_print(std::cerr, indent_level,
-                     "=== DECISION: ELSE BRANCH NOW UNFEASIBLE\n");
-    indent_and_print(std::cerr, indent_level,
-                     "==> merge then branch with parent.\n");
-#endif
-    PIP_Tree_Node* const node = true_child;
-    node->parent_merge();
-    node->set_parent(parent());
-    true_child = nullptr;
-    delete this;
-    PPL_ASSERT(node->OK());
-    return node;
-  }
-  else if (has_true_child && true_child == nullptr) {
-    // True child has become unfeasible: merge this node's artificials
-    // with the false child.
+  if (has_true_child && true_child == nullptr) {
+    // True child has become unfeasible: the false child is the solution
+    // for the parameter values violating the test of this node (and only
+    // for those), i.e., it becomes the true child of the complemented test.
 #ifdef NOISY_PIP_TREE_STRUCTURE
     indent_and_print(std::cerr, indent_level,
                      "=== DECISION: THEN BRANCH NOW UNFEASIBLE\n");
     indent_and_print(std::cerr, indent_level,
-                     "==> merge else branch with parent.\n");
+                     "==> else branch becomes then branch of negated test.\n");
 #endif
-    PIP_Tree_Node* const node = false_child;
-    node->parent_merge();
-    node->set_parent(parent());
+    PPL_ASSERT(1 == Implementation::num_constraints(constraints_));
+    // Complement `expr >= 0' into `-expr - 1 >= 0'.
+    Linear_Expression expr(constraints_.begin()->expression());
+    neg_assign(expr);
+    expr -= 1;
+    Constraint_System cs;
+    cs.insert(expr >= 0);
+    swap(cs, constraints_);
+    true_child = false_child;
     false_child = nullptr;
-    delete this;
-    PPL_ASSERT(node->OK());
-    return node;
+    PPL_ASSERT(OK());
+    return this;
   }
-  else if (check_feasible_context) {
+  // Note: if the false child has become unfeasible, the node is kept as it
+  // is: its test still tells apart the parameter values having no solution.
+  if (check_feasible_context) {
     // Test all constraints for redundancy with the context, and eliminate
     // them if not necessary.
     Constraint_System cs;
